@@ -799,7 +799,9 @@ def cli_oracle(ctx, case, impl, which):
         try:
             ref, est = load_fresh(case, impl["dir"])
             ref, est, _ = apply_steps(steps, ref, est, stop_before_metric=True)
-        except EvoException as e:
+        except core.ToolError:
+            raise
+        except Exception as e:  # noqa (L12): evo's exceptions and raw Python errors of its primitives alike
             want_exc = type(e).__name__
     fac = unit_factor(rel, o.get("change_unit"))
     if want_exc is None and ref.num_poses != est.num_poses:
